@@ -387,7 +387,8 @@ def distance_wei_floyd(adjacency, transform=None):
         with np.errstate(divide='ignore'):
             if transform == 'log':
                 #SPL = logtransform(adjacency)
-                SPL = -np.log(adjacency)
+                # (+ 0.: -log(1) is -0.0, whose inverse would be -inf)
+                SPL = -np.log(adjacency) + 0.
             elif transform == 'inv':
                 #SPL = invert(adjacency)
                 SPL = 1 / adjacency
